@@ -21,20 +21,21 @@ def jobs(tier):
 def run(chk, tier, seed):
     res, js = jobs(tier)
     chk.add_model(res, label="group elements (perm, sign, shift) of the two-field model; inverse/composition facts")
-    tns = [0.92] if tier == "quick" else [0.92, 0.93]
+    # (nucleation temperature, tolerance setting): the tight setting (errTol 1e-4) resolves relabelling effects of a few 1e-4 in vw
+    tns = [(0.92, "tight")] if tier == "quick" else [(0.92, "tight"), (0.92, "default"), (0.93, "tight")]
     reps = []
-    for tn in tns:
-        reps.append(dict(model="two", tn=tn, g=IDENT))
-        reps += [dict(model="two", tn=tn, g=j["g"]) for j in js]
+    for tn, st in tns:
+        reps.append(dict(model="two", tn=tn, setting=st, g=IDENT))
+        reps += [dict(model="two", tn=tn, setting=st, g=j["g"]) for j in js]
     with Pool(min(16, len(reps))) as pool:
         evs = pool.map(covar.run_one, reps, chunksize=1)
     traces, per = [], 1 + len(js)
-    for t, tn in enumerate(tns):
+    for t, (tn, st) in enumerate(tns):
         block = evs[t * per:(t + 1) * per]
         for k, j in enumerate(js):
             g = j["g"]
-            traces.append({"id": "relabel_tn{}_p{}_s{}_t{}".format(tn, "".join(map(str, g["perm"])), "".join("+" if s > 0 else "-" for s in g["sign"]), g["shift"]),
-                           "ev": [block[0], block[1 + k]], "cell": dict(tn=tn, g=g)})
+            traces.append({"id": "relabel_tn{}_{}_p{}_s{}_t{}".format(tn, st, "".join(map(str, g["perm"])), "".join("+" if s > 0 else "-" for s in g["sign"]), g["shift"]),
+                           "ev": [block[0], block[1 + k]], "cell": dict(tn=tn, setting=st, g=g)})
     for tr in traces:
         chk.count(tr["id"])
     chk.sample(traces[0])
@@ -51,7 +52,8 @@ def replay(chk, path):
     with open(path) as f:
         tr = json.load(f)
     c = tr["cell"]
-    evs = [covar.run_one(dict(model="two", tn=c["tn"], g=IDENT)), covar.run_one(dict(model="two", tn=c["tn"], g=c["g"]))]
+    evs = [covar.run_one(dict(model="two", tn=c["tn"], setting=c.get("setting", "default"), g=IDENT)),
+           covar.run_one(dict(model="two", tn=c["tn"], setting=c.get("setting", "default"), g=c["g"]))]
     for ev in evs:
         print(json.dumps(ev)[:700])
     new = dict(tr, ev=evs)
